@@ -11,6 +11,7 @@ protocol obligation of the HOST that is broken.
 """
 import contextlib
 import io
+import os
 import struct
 import sys
 import types
@@ -253,11 +254,23 @@ def run_host(pages, fw, prefix=(), faults=None, lenient=False, uniform=None, dev
     clock = Clock()
     dev = Device(pages, ch, clock, faults, lenient, uniform)
     _FAKE['device'] = dev
-    dfu.time = clock
-    dfu.open = lambda path, mode='r': io.BytesIO(fw)
+    # the host's clock: `time.sleep` however it is imported (module attribute, `from time import sleep`, ...) is the virtual clock during the run
+    import time as _time
+    real_sleep = _time.sleep
+    _time.sleep = clock.sleep
+    if getattr(dfu, 'sleep', None) is real_sleep:
+        dfu.sleep = clock.sleep
+    # the firmware is a real file (however the host chooses to read it); its content is a function of its length, so it is written once per length
+    from mc import kernel
+    d = os.path.join(kernel.scratch('_dfu'), 'fw')
+    os.makedirs(d, exist_ok=True)
+    path = os.path.join(d, 'fw_%d.bin' % len(fw))
+    if not os.path.exists(path) or os.path.getsize(path) != len(fw):
+        with open(path, 'wb') as f:
+            f.write(fw)
     out = io.StringIO()
     old_argv = sys.argv
-    sys.argv = ['bronzebeard-dfu', device_id, 'firmware.bin']
+    sys.argv = ['bronzebeard-dfu', device_id, path]
     r = Run()
     r.exc = None
     try:
@@ -275,6 +288,7 @@ def run_host(pages, fw, prefix=(), faults=None, lenient=False, uniform=None, dev
                 out.write('%s: %s\n' % (type(e).__name__, e))
     finally:
         sys.argv = old_argv
+        _time.sleep = real_sleep
     r.dev, r.chooser, r.clock, r.stdout = dev, ch, clock, out.getvalue()
     r.done = 'done!' in r.stdout
     return r
